@@ -155,6 +155,20 @@ Theorem C10_power_operator :
     = rmul (get R r0 x (idx3 (ssize s) (prodsz dpost) i1 j i3)) (get R r0 p (nth j pindex 0)).
 Proof. intros R r0 r1 radd rmul rsub ropp rdiv rinv F. exact (power_operator_get R r0 rmul). Qed.
 
+(* Histories: the answer to the i-th call of any sequence of power_analyze calls is the pure
+   function of that call's arguments (domain, binning, phase flag, field) -- nothing that happened
+   before (other binnings on the same domain, failed calls, retries) can influence it.  The
+   correspondence evaluates `analyze_history` on generated call sequences. *)
+Theorem C10_history_stateless :
+  forall (R : Type) r0 r1 radd rmul rinv (calls : list (acall R)) i c,
+    nth_error calls i = Some c ->
+    nth_error (analyze_history R r0 r1 radd rmul rinv calls) i
+    = Some (power_analyze R r0 r1 radd rmul rinv (fst c) (fst (snd c)) (fst (snd (snd c))) (snd (snd (snd c)))).
+Proof.
+  intros R r0 r1 radd rmul rinv calls i [d [specs [keep f]]] H.
+  exact (history_pointwise R r0 r1 radd rmul rinv calls i _ H).
+Qed.
+
 (* In the rationals (characteristic 0) the field-level side condition on the member counts follows
    from the combinatorial one: non-empty bins have non-zero counts. *)
 Require Import Lia QArith Qcanon NV.C10.ProofsQc NV.C10.Corr.
